@@ -4,20 +4,23 @@ import JSight.EnumScan
 import JSight.Render
 import JSight.Unquote
 import JSight.Number
-
-def hexVal (c : Char) : Nat :=
-  if c.isDigit then c.toNat - 48 else if 'a' ≤ c ∧ c ≤ 'f' then c.toNat - 87 else 0
-
-def unhex (s : String) : List UInt8 :=
-  let rec go : List Char → List UInt8
-    | a :: b :: rest => (UInt8.ofNat (hexVal a * 16 + hexVal b)) :: go rest
-    | _ => []
-  go s.toList
-
-def hexOf (bs : List UInt8) : String :=
-  String.join (bs.map fun b =>
-    let d (n : Nat) : Char := if n < 10 then Char.ofNat (48 + n) else Char.ofNat (87 + n)
-    String.mk [d (b.toNat / 16), d (b.toNat % 16)])
+import JSight.Formats
+import JSight.Rfc
+import JSight.SimTrailing
+import JSight.OMap
+import Driver.Common
+import Driver.Sem
+import Driver.SemA
+import Driver.SemB
+import Driver.SemC
+import Driver.SemK
+import Driver.Ex
+/-!
+Line-protocol driver `jsight-model` (DESIGN.md §12). One request per line on stdin, one reply per
+line on stdout. Core Lean only: nothing imported here may import Mathlib (the executable would
+not link).
+-/
+open Drv
 
 def jsonEvs (r : Except JsonScan.ErrS (List JsonScan.Ev)) : String :=
   match r with
@@ -39,28 +42,110 @@ def jkey (allow : Bool) (bs : List UInt8) : String :=
       | .ok (.cont cfg') => go cfg' (i + 1) cs
   go JsonScan.Cfg.init 0 (bs.map JsonScan.classify)
 
-def handle (ws : List String) : String :=
+namespace DNum
+open Num
+def ofStr (s : String) : List Ch := s.toList.map fun c =>
+  if c == '-' then .minus else if c == '+' then .plus else if c == '.' then .dot else if c == 'e' || c == 'E' then .e
+  else if c.isDigit then .d (c.toNat - 48) else .other
+def digitsStr (ds : List Nat) : String := String.mk (ds.map fun d => Char.ofNat (48 + d))
+def showN (n : N) : String :=
+  let i := n.int
+  let f := n.fra
+  (if n.neg then "-" else "") ++ (if i.isEmpty then "0" else digitsStr i) ++ (if f.isEmpty then "" else "." ++ digitsStr f)
+    ++ s!"|{n.exp}"
+def ordStr : Ordering → String | .lt => "-1" | .eq => "0" | .gt => "1"
+end DNum
+
+namespace DEnum
+open EnumScan
+def LexT.name : LexT → String
+  | .litB => "literal-begin" | .litE => "literal-end"
+  | .arrB => "array-begin" | .arrE => "array-end" | .itemB => "item-begin" | .itemE => "item-end"
+  | .inlAnnB => "inline-annotation-begin" | .inlAnnE => "inline-annotation-end"
+  | .inlTxtB => "inline-annotation-text-begin" | .inlTxtE => "inline-annotation-text-end"
+  | .mlAnnB => "multi-line-annotation-begin" | .mlAnnE => "multi-line-annotation-end"
+  | .mlTxtB => "multi-line-annotation-text-begin" | .mlTxtE => "multi-line-annotation-text-end"
+  | .newLine => "new-line" | .endTop => "end-top"
+def showErr : Err → String
+  | .arrayExpected i => s!"ERR 1600 {i}"
+  | .invalidChar i _ => s!"ERR 301 {i}"
+  | .duplicate i => s!"ERR 810 {i}"
+  | .unexpectedEOF i => s!"ERR 303 {i}"
+  | .eos => "EOS"
+  | .other w => s!"OTHER {w}"
+def events (bs : List UInt8) : String :=
+  match scanAll bs with
+  | .ok evs => " ".intercalate (evs.map fun (e : EnumScan.Ev) => s!"{LexT.name e.ty}[{e.b}:{e.e}]")
+  | .error e => showErr e
+def len (bs : List UInt8) : String :=
+  match length bs with | .ok n => s!"LEN {n}" | .error e => showErr e
+end DEnum
+
+/-- the remainder of the line after the first word -/
+def restOf (line : String) : String :=
+  match line.splitOn " " with
+  | _ :: rest => " ".intercalate rest
+  | [] => ""
+
+def handle (line : String) : String :=
+  let ws := line.splitOn " "
   match ws with
   | ["jkey", "E", hx] => jkey false (unhex hx)
   | ["jkey", "T", hx] => jkey true (unhex hx)
-  | ["jscan", "E", hx] => jsonEvs (JsonScan.events false (unhex hx))
-  | ["jscan", "T", hx] => jsonEvs (JsonScan.events true (unhex hx))
-  | ["jscan", "C", hx] => (match JsonScan.checkS false (unhex hx) with | .ok _ => "OK" | .error e => JsonScan.showErrS e)
-  | ["jscan", "L", hx] => (match JsonScan.lengthS true (unhex hx) with | .ok n => s!"LEN {n}" | .error e => JsonScan.showErrS e)
-  | ["sscan", "E", hx] => SchemaScan.showEvents (SchemaScan.scanAll (unhex hx))
-  | ["sscan", "L", hx] => SchemaScan.showLen (SchemaScan.length (unhex hx))
-  | ["unq", hx] => hexOf (Unquote.unquote (unhex hx))
+  | ["jkey", "E"] => jkey false []
+  | ["jkey", "T"] => jkey true []
+  | "jscan" :: m :: r =>
+    let bs := unhex (r.headD "")
+    (match m with
+     | "E" => jsonEvs (JsonScan.events false bs)
+     | "T" => jsonEvs (JsonScan.events true bs)
+     | "C" => (match JsonScan.checkS false bs with | .ok _ => "OK" | .error e => JsonScan.showErrS e)
+     | "D" => (match JsonScan.checkS true bs with | .ok _ => "OK" | .error e => JsonScan.showErrS e)
+     | "L" => (match JsonScan.lengthS true bs with | .ok n => s!"LEN {n}" | .error e => JsonScan.showErrS e)
+     | _ => "bad-op")
+  | "rfc" :: m :: r =>
+    let cs := (unhex (r.headD "")).map JsonScan.classify
+    (match m with
+     | "A" => if Rfc.acceptsC cs then "1" else "0"
+     | "P" => if Sim.runP Rfc.RCfg.init cs then "1" else "0"
+     | _ => "bad-op")
+  | "sscan" :: m :: r =>
+    let bs := unhex (r.headD "")
+    (match m with
+     | "E" => SchemaScan.showEvents (SchemaScan.scanAll bs)
+     | "L" => SchemaScan.showLen (SchemaScan.length bs)
+     | _ => "bad-op")
+  | "escan" :: m :: r =>
+    let bs := unhex (r.headD "")
+    (match m with
+     | "E" => DEnum.events bs
+     | "L" => DEnum.len bs
+     | _ => "bad-op")
+  | "unq" :: r => hexOf (Unquote.unquote (unhex (r.headD "")))
   | ["rend", hx, idx] =>
       (match Render.render (unhex hx).toArray idx.toNat! with
        | some (l, s, p) => s!"{l}|{hexOf s}|{p}"
        | none => "CRASH")
+  | ["num", "N", a] => (match Num.scan (DNum.ofStr a) with | some n => DNum.showN n | none => "ERR")
+  | ["num", "C", a, b] => (match Num.scan (DNum.ofStr a), Num.scan (DNum.ofStr b) with
+      | some x, some y => DNum.ordStr (x.cmp y)
+      | _, _ => "ERR")
+  | ["fmt", "U", hx] => if Formats.uuidOK (unhex hx) then "OK" else "ERR"
+  | ["fmt", "D", hx] => if Formats.dateOK (unhex hx) then "OK" else "ERR"
+  | "sem" :: _ => DSem.handle (restOf line)
+  | "sema" :: _ => DSemA.handle (restOf line)
+  | "semb" :: _ => DSemB.handle (restOf line)
+  | "semc" :: _ => DSemC.handle (restOf line)
+  | "semk" :: _ => DSemK.handle (restOf line)
+  | "ex" :: _ => DEx.handle line
   | _ => "bad-op"
 
 partial def loop (h : IO.FS.Stream) (out : IO.FS.Stream) : IO Unit := do
   let line ← h.getLine
-  if line.isEmpty then return ()
-  let ws := (line.dropRightWhile (· == '\n')).splitOn " "
-  out.putStrLn (handle ws)
+  if line.isEmpty then
+    out.flush
+    return ()
+  out.putStrLn (handle (line.dropRightWhile (fun c => c == '\n' || c == '\r')))
   loop h out
 
 def main : IO Unit := do
